@@ -17,7 +17,7 @@ def _clear_caches(ns_):
             cc_()
 
 PROPERTY = "C14"
-REGIONS = ["through-select", "second-select-on-the-same-object", "empty-priority-dictionary", "defaulted-xor", "defaulted-any", "no-default", "user-positive", "user-negative", "user-tie", "two-levels", "user-zero", "user-on-compound",
+REGIONS = ["subclass-items", "through-select", "second-select-on-the-same-object", "empty-priority-dictionary", "defaulted-xor", "defaulted-any", "no-default", "user-positive", "user-negative", "user-tie", "two-levels", "user-zero", "user-on-compound",
            "prio-minus-2-column", "key-strictly-ordered-pair-exists"]
 BOUNDS = ("CFG family: configurators with defaulted/plain cc.Any and cc.Xor, AtMost, All, Any, Xor, Imply rules, nesting <=2, <=6 boolean items, "
           "<=16 columns (concrete: the model crosses the Rust encoder, M7); priority dictionary over <=3 seeded ids with symbolic values |p|<=20 "
@@ -47,6 +47,13 @@ def instantiations(tier, seed):
                 keys[-1] = rng.choice([i for i in cids if i != c["id"]] or cids)
             out.append({"model": c, "prio_keys": keys})
         out.append({"model": c, "prio_keys": []})       # the empty priority dictionary: defaults and stinginess alone decide
+        if k % 3 == 0 or tier == "thorough":
+            # items that are instances of a user-defined subclass of puan.variable (parts carrying their own attributes)
+            from sx.families import with_subclass_leaves
+            cs = with_subclass_leaves(c)
+            out.append({"model": cs, "prio_keys": []})
+            if its:
+                out.append({"model": cs, "prio_keys": its[:1], "via": "select"})
         if its:
             # the objective as the solver receives it from select(); and the same after an earlier select() on the same object
             keys2 = rng.sample(its, min(len(its), 2))
@@ -178,6 +185,8 @@ def run_inst(spec, run):
                 run.region("user-zero")
             if not keys:
                 run.region("empty-priority-dictionary")
+            if any(l.get("sub") for l in _leafspecs(model_spec)):
+                run.region("subclass-items")
             if any(k in user and k not in cfg.items(model_spec) for k in keys):
                 run.region("user-on-compound")
             dd = cfg.defaulted(model_spec)
@@ -234,6 +243,15 @@ def run_inst(spec, run):
     finally:
         ffi.uninstall(ns.pnd)
         npshim.uninstall(ns.pnd)
+
+
+def _leafspecs(spec, acc=None):
+    acc = [] if acc is None else acc
+    if spec["t"] == "var":
+        acc.append(spec)
+    for c in spec.get("ch", []):
+        _leafspecs(c, acc)
+    return acc
 
 
 def pl_abs(e):
